@@ -528,8 +528,8 @@ def fam_C10_base(seed, n):
         r = rnd_for(seed, "C10", i)
         codec = r.choice(["gob", "json"])
         U = unit(codec)
-        cfg = base_cfg(maxCache=r.choice([-1, -1, 1, 2, 0]), idExpiry=r.choice([MAX, 2 * U, 0]), grace=r.choice([0, 5 * U, 50 * U]),
-                       cacheExpiry=r.choice([MAX, 2 * U]))
+        cfg = base_cfg(maxCache=r.choice([-1, -1, 1, 2, 0]), idExpiry=r.choice([MAX, 2 * U, 0, 40 * U]), grace=r.choice([0, 5 * U, 50 * U]),
+                       cacheExpiry=r.choice([MAX, 2 * U]), sessionExpiry=r.choice([MAX, MAX, 30 * U, 100 * U]))
         sc = Script()
         emit_cfg(sc, codec, cfg, None, r)
         SALT[0] = ".%d" % r.randint(0, 9999)
@@ -581,11 +581,16 @@ def fam_C12(seed, n):
                     sc.add("h destroy")
                 elif y < 0.4:
                     sc.add("h set k0 i%d" % r.randint(0, 99))
+                elif y < 0.5:
+                    sc.add("h login u0 0")
                 sc.add("end")
             elif x < 0.78:
                 sc.add("wait", r.choice([1, 1, 2, 3, 5]) * U)
-            elif x < 0.86:
+            elif x < 0.84:
                 sc.add("purge")
+            elif x < 0.9:
+                # a cache write that only UPDATES cached sessions (after a wait or a lowered limit)
+                sc.add(r.choice(["refresh u0", "logoutuser u0"]))
             else:
                 sc.add("cfg maxCache", r.choice([-1, 0, 1, 2, 3]))
         out.append(("C12-%d" % i, sc.text()))
